@@ -125,6 +125,7 @@ void sim_mpi_get_stats(struct sim_mpi_stats* out);
 int sim_mpi_request_state(void* handle);
 /* while on, no request completes; switching it off re-draws every outstanding completion time from now */
 void sim_mpi_hold(int on);
+void sim_mpi_set_world_size(int n);
 
 #ifdef __cplusplus
 }
